@@ -109,15 +109,17 @@ PROPS = {
     },
     "C18": {
         "level": "proof",
-        "verus": ["schema_lookup", "executable_ctor"],
-        "explanation": "KERNEL ONLY (two parts). Unit executable_ctor: the constructors through which every field and inline fragment gets its annotations -- SelectionSet::new_field is Ok exactly when the parent type has that field "
+        "verus": ["schema_lookup", "executable_ctor", "fragment_cycles"],
+        "explanation": "KERNEL ONLY (three parts). Unit fragment_cycles -- 'fragment spreads are acyclic in a valid document': validate_fragment_cycles / detect_fragment_cycles, for every document: if the search from a fragment reports nothing, that fragment "
+                       "lies on NO chain of fragment spreads leading back to it (spreads anywhere in a selection set, through fields and inline fragments). The proof is the white / grey / black argument: the set of marked fragments is closed under spreading "
+                       "except through the current path, the root is never marked, and a chain that starts at the root therefore stays inside the marked set and cannot return (lemma_nothing_reported_means_no_cycle). Unit executable_ctor: the constructors through which every field and inline fragment gets its annotations -- SelectionSet::new_field is Ok exactly when the parent type has that field "
                        "or meta-field and then carries exactly that definition (Schema::type_field's proved contract, shared text), with a sub-selection set typed by the inner named type of the definition's type; Field::new / Field::ty; "
                        "an inline fragment's selection set is typed by its type condition, or by the parent's type when it has none (new_inline_fragment, with_type_condition, without_type_condition). Unit schema_lookup: Schema::type_field, the lookup through which every field of an executable document gets the schema's definition of that field on its parent type. Verus proves for every schema, "
                        "type name and field name: the explicit field of an object / interface type if there is one; otherwise __typename on object, interface and union types only; otherwise __schema / __type on the "
                        "query root type only; otherwise Err(NoSuchType) iff the type is undefined, Err(NoSuchField(type name, type definition)) else. The body is re-extracted from /repo on every run.",
         "assumptions": ["IndexMap::get / get_key_value find the entry keyed by the text; MetaFieldDefinitions::get() returns the three implicit definitions; &str values with equal characters are equal (axiom)"],
         "not_decided": ["everything else of C18: that from_ast calls these constructors with the right parent type for every selection (the AST conversion loop), "
-                        "the validity guarantees (spreads acyclic, variables defined, leaf / composite sub-selections), the root_fields / all_fields iterators"],
+                        "the other validity guarantees (variables defined, leaf / composite sub-selections), that validate_fragment_cycles is called for every fragment of the document, the root_fields / all_fields iterators"],
     },
     "C26": {
         "level": "proof",
